@@ -60,6 +60,12 @@ def record_layout(f, a=None):
             if a is not None:
                 n = a.array_length()
                 el = a.element[k % n]
+                # atom name, columns 13-16: the element symbol is right-justified in 13-14, so names of one-letter
+                # elements shorter than 4 characters start in column 14, names of two-letter elements in column 13
+                nm = str(a.atom_name[k % n])
+                want = (" " + nm if len(str(el)) == 1 and len(nm) < 4 else nm).ljust(4)
+                if len(nm) <= 4 and str(el) and line[12:16] != want:
+                    return f"atom name columns 13-16 hold {line[12:16]!r} for the name {nm!r} of element {str(el)!r}, expected {want!r}: {line!r}"
                 if line[76:78].strip().upper() != str(el).upper():      # (the column; the value is the round trip's business)
                     return f"element columns 77-78 hold {line[76:78]!r}, expected {el!r}: {line!r}"
             k += 1
